@@ -611,6 +611,24 @@ class ISD(model.Document):
 
         isd_element.set_style(initial_style, initial_value)
 
+      # text decoration components that are specified neither on the element nor on an ancestor have their initial value
+
+      text_decoration = isd_element.get_style(styles.StyleProperties.TextDecoration)
+
+      if None in (text_decoration.underline, text_decoration.line_through, text_decoration.overline):
+
+        initial_decoration = doc.get_initial_value(styles.StyleProperties.TextDecoration) \
+          if doc.has_initial_value(styles.StyleProperties.TextDecoration) else styles.TextDecorationType()
+
+        isd_element.set_style(
+          styles.StyleProperties.TextDecoration,
+          styles.TextDecorationType(
+            underline=text_decoration.underline if text_decoration.underline is not None else bool(initial_decoration.underline),
+            line_through=text_decoration.line_through if text_decoration.line_through is not None else bool(initial_decoration.line_through),
+            overline=text_decoration.overline if text_decoration.overline is not None else bool(initial_decoration.overline)
+          )
+        )
+
     # compute style properties, except for br elements, to which no style property applies, which
     # have no children that could inherit from them and lack the font size that relative lengths need
 
